@@ -149,6 +149,10 @@ def impl_builtin(case):
 
                 unit_gen.__name__ = "UnitGen"
                 u = h.generator(unit_gen)()
+        # the unit's interface as the designer wrote it — taken before a pre-elaboration flattens its bundle ports
+        want0 = None
+        if isinstance(u, h.Module):
+            want0 = sorted([("sig", n) for n in u.ports] + [("bundle", n) for n, b in u.bundles.items() if b.port])
         if case.get("pre_elab"):
             h.elaborate(u)
     except Exception as ex:  # noqa
@@ -171,9 +175,8 @@ def impl_builtin(case):
         return sorted(("sig", p.name) for p in x.ports.values()) if hasattr(x.ports, "values") else sorted(("sig", p) for p in x.ports)
     out = {}
     try:
-        want = iface(u) if isinstance(u, h.Module) else sorted(("sig", p["n"]) for p in unit["leaf"]["ports"])
-        if not (isinstance(u, h.Module) and case.get("pre_elab")):
-            out["iface"] = {"got": iface(m), "want": want}
+        want = want0 if want0 is not None else sorted(("sig", p["n"]) for p in unit["leaf"]["ports"])
+        out["iface"] = {"got": iface(m), "want": want}
     except Exception as ex:  # noqa
         out["iface_error"] = common.errstr(ex)
     try:
